@@ -370,6 +370,7 @@ namespace verif
         // ---- invalid half --------------------------------------------------------------
         std::string text;
         std::string kind;
+        bool must_reject = false; // set for texts that are certainly not media types (see "absurd q")
         if (mode <= 5)
         {
             Ast a      = gen_ast(c);
@@ -389,7 +390,16 @@ namespace verif
             }
             case 1: { // absurd q
                 static const char* qs[] = { "5", "-1", "1e10", "nan", "inf", "0x1p3", "1.01", "-0.5", "1e400", "1e-400", "99999999999999999999", ".", "-", "+", "e5", "0.5.5", "infinity", "-inf", "2", "655.36", "42949672.96" };
-                text += std::string("; q=") + qs[c.pick(21)];
+                // the same 21 slots as before; a third of them (by the text's length, no choice consumed) are
+                // replaced by values that are outside [0, 1] by LESS than half a hundredth - out of range all
+                // the same, and invisible to a check that looks at the stored, rounded quality
+                static const char* near[] = { "1.001", "1.004", "1.0049", "1.005", "1.00000001", "-0.001", "-0.004", "-0.0049", "-0.00000001", "1.0000001e0" };
+                unsigned qi = c.pick(21);
+                bool use_near = text.size() % 3 == 0;
+                // a quality outside [0, 1] is not a media type whatever else the text says - as long as no
+                // earlier q parameter could take precedence over it
+                must_reject = use_near && !a.hasQ;
+                text += std::string("; q=") + (use_near ? near[qi % 10] : qs[qi]);
                 kind = "absurd-q";
                 break;
             }
@@ -440,6 +450,8 @@ namespace verif
                 (void)m.toString();
                 if (m.sub() == Subtype::Vendor || m.sub() == Subtype::Ext)
                     (void)m.rawSub();
+                V_CHECK(!must_reject, "C18/out-of-range-quality-accepted",
+                        "\"" + printable(text) + "\" was accepted" + (m.q() ? " with quality " + std::to_string(m.q()->value()) + "/100" : "") + ": its quality value is outside [0, 1]");
                 rep.label("invalid-half:parsed");
             }
             catch (const HttpError& e)
